@@ -21,7 +21,7 @@ func init() { register(c04{}) }
 func (c04) ID() string            { return "C04" }
 func (c04) EvidenceLevel() string { return "exploration" }
 func (c04) Rule() string {
-	return "case = one stream (valid, or a valid stream cut at a byte) x a set of delivery/read schedules: source chunking {1 byte per call, random short reads, one split at k (every k for streams <= 600 bytes), data together with io.EOF} x transport {none, bufio of 16,17,64,328,329,4095,4096,4097,64K,1M, handed to NewReader or to Reset} x destination sizes {1,2,7,random,64K}. Every schedule must produce the same bytes and the same final error as the all-at-once baseline. Non-trivial: the stream decodes to at least one byte or is truncated; distinct by (stream digest, schedule). Every 14th case adds a truncation sweep: word salad whose separators are 0x00/0x01/0xff, sixteen cut points, each read whole, byte by byte and in random chunks. Match-edge cases add five more synthesised streams each (most with a packed literal(s)+match entry ending one or two bytes beyond the 64 KiB window), every one in every plain two-piece delivery."
+	return "case = one stream (valid, or a valid stream cut at a byte) x a set of delivery/read schedules: source chunking {1 byte per call, random short reads, one split at k (every k for streams <= 600 bytes), data together with io.EOF} x transport {none, bufio of 16,17,64,328,329,4095,4096,4097,64K,1M, handed to NewReader or to Reset} x destination sizes {1,2,7,random,64K}. Every schedule must produce the same bytes and the same final error as the all-at-once baseline. Non-trivial: the stream decodes to at least one byte or is truncated; distinct by (stream digest, schedule). Every 14th case adds a truncation sweep: word salad whose separators are 0x00/0x01/0xff, sixteen cut points, each read whole, byte by byte and in random chunks. Match-edge cases add three more synthesised streams each (most with a packed literal(s)+match entry ending one or two bytes beyond the 64 KiB window), every one in every plain two-piece delivery."
 }
 func (c04) NumCases(tier string) int {
 	if tier == "thorough" {
@@ -262,9 +262,9 @@ func (c04) Run(c *mon.Ctx, i int) {
 		// two bytes beyond the window (literals + match longer than the room left),
 		// each in every plain two-piece delivery
 		over := [][3]int{{0, 1, 258}, {0, 2, 258}, {0, 2, 257}, {1, 2, 258}, {0, 1, 258}, {1, 1, 258}, {2, 2, 258}, {0, 0, 258}}
-		for t := 0; t < 5; t++ {
-			pr := over[(i/7+t)%len(over)]
-			st, plain, d := synth.MatchEdge(r, pr[0], pr[1], pr[2], []int{0, 1, 0, 2}[(i/7+t)%4])
+		for t := 0; t < 3; t++ {
+			pr := over[(i/7*3+t)%len(over)]
+			st, plain, d := synth.MatchEdge(r, pr[0], pr[1], pr[2], []int{0, 1, 0, 0}[(i/7+t)%4])
 			b0 := c04Run(c.API, r, st, c04Sched{chunk: "whole", dst: "64k"}, len(plain)+1<<20)
 			for k := 1; k < len(st); k++ {
 				sc := c04Sched{chunk: "split", split: k, dst: "64k"}
